@@ -34,8 +34,8 @@ const keyMutexDeadlock = "deadlock/concurrent-stops-block-run-finaliser"
 
 func configs(thorough bool) []Config {
 	var out []Config
-	ends := []string{"done", "loop", "assert", "errorlabel", "reserr-body", "reserr-precommit"}
-	mixes := []string{"plain", "closeerr", "incmap", "hashmap", "nested", "twopc", "incmap-closeerr", "hashmap-closeerr"}
+	ends := []string{"done", "loop", "assert", "errorlabel", "reserr-body", "reserr-precommit", "body-panic"}
+	mixes := []string{"plain", "closeerr", "incmap", "hashmap", "nested", "twopc", "incmap-closeerr", "hashmap-closeerr", "sendchan"}
 	maxStops := 3
 	if thorough {
 		maxStops = 4
@@ -47,7 +47,7 @@ func configs(thorough bool) []Config {
 					continue // never ends
 				}
 				out = append(out, Config{End: end, Mix: mix, Stops: stops})
-				if !thorough && stops >= 2 && (mix == "twopc" || strings.HasSuffix(mix, "-closeerr")) {
+				if !thorough && stops >= 2 && (mix == "twopc" || mix == "sendchan" || strings.HasSuffix(mix, "-closeerr")) {
 					continue // quick: the second Run on these mixes with 0 or 1 Stop callers only
 				}
 				out = append(out, Config{End: end, Mix: mix, Stops: stops, SecondRun: true})
@@ -894,7 +894,7 @@ func TestCheck(t *testing.T) {
 			"late_answer_rounds":         lateReport,
 			"leaked_bubbles":             leakedB + bubble.Leaked(),
 			"shard_workers":              env.Workers,
-			"bounds":                     "endings {Done, Stop only, assertion, Error label, resource error in body, resource error in PreCommit} x resource mixes {2 plain, plain with failing Close, IncMap with realised elements, HashMap with 3 configured elements, nested-archetype resource with an instrumented inner resource} plus the nested mix with a nested archetype that ends on its own (Done / error / assertion, after serving 0 or 1 outer sections; outer section 2 using or not using the nested resource; outer ending Done or Stop-only; 0-2 Stop callers) x 0-3 (thorough 0-4) Stop callers started at every scheduling point (before Run, at each section start, inside each Close, after Run, around a second Run) x with/without a second Run call, plus Stop callers on a context whose Run is never called; every interleaving, no preemption bound",
+			"bounds":                     "endings {Done, Stop only, assertion, Error label, resource error in body, resource error in PreCommit, panic in the body} x resource mixes {2 plain, plain with failing Close, IncMap with realised elements, HashMap with 3 configured elements, nested-archetype resource with an instrumented inner resource} plus the nested mix with a nested archetype that ends on its own (Done / error / assertion, after serving 0 or 1 outer sections; outer section 2 using or not using the nested resource; outer ending Done or Stop-only; 0-2 Stop callers) x 0-3 (thorough 0-4) Stop callers started at every scheduling point (before Run, at each section start, inside each Close, after Run, around a second Run) x with/without a second Run call, plus Stop callers on a context whose Run is never called; every interleaving, no preemption bound",
 		}
 		if len(samples) == 0 {
 			cov["samples"] = []any{"(no sample of the selected shapes)"}
